@@ -61,6 +61,10 @@ func (s *signer) Unmarshal(bytes []byte) error {
 		return fmt.Errorf("cannot unmarshal signer: [%w]", err)
 	}
 
+	if pbSigner.Wallet == nil {
+		return fmt.Errorf("cannot unmarshal signer: missing wallet")
+	}
+
 	walletPublicKey := unmarshalPublicKey(pbSigner.Wallet.PublicKey)
 
 	walletSigningGroupOperators := make(
